@@ -38,7 +38,7 @@ class State:
         self.vers, self.epoch = vers, epoch
 
 
-def build_history(rng, ncycles, cs, shipped_old, rotation, plan, delegate=None):
+def build_history(rng, ncycles, cs, shipped_old, rotation, plan, delegate=None, delegate_depth=1):
     """plan: list of (versions, epoch_of_files, chain_upto) per cycle.
     rotation: list of role-key dicts per root version (index 0 = root v1)."""
     s = scen.Scen()
@@ -52,7 +52,8 @@ def build_history(rng, ncycles, cs, shipped_old, rotation, plan, delegate=None):
     for vers, epoch, upto in plan:
         roles = rotation[epoch]
         signers = {k: roles[k][0][:roles[k][1]] for k in ("snapshot", "targets", "timestamp")}
-        _, files = scen.simple_repo(s, cs=cs, versions=vers, root=roots[0], signers=signers, delegate=delegate)
+        _, files = scen.simple_repo(s, cs=cs, versions=vers, root=roots[0], signers=signers, delegate=delegate,
+                                    delegate_depth=delegate_depth)
         for v in range(2, upto + 2):
             files["%d.root.json" % v] = {"doc": roots[v - 1]}
         shipped = roots[0] if shipped_old else roots[upto]
@@ -184,6 +185,9 @@ def gen(chk):
                 e = len(rot) - 1
                 for lo in ((4, 5, 5, 5), (4, 4, 5, 5), (4, 4, 4, 4)):
                     out.append(("role-named-%s" % name, cs, True, rot, [((5, 5, 5, 5), e, e), (lo, e, e)], name))
+                # the same name further down the delegation tree (targets -> mid0 -> <name>, and one level more)
+                out.append(("role-named-%s" % name, cs, True, rot, [((5, 5, 5, 5), e, e), ((4, 5, 5, 5), e, e)], name, 2))
+                out.append(("role-named-%s" % name, cs, True, rot, [((5, 5, 5, 5), e, e), ((4, 4, 4, 4), e, e)], name, 3))
     n_random = 600 if chk.tier == "quick" else 12000
     for _ in range(n_random):
         rot = rotations(rng) if rng.random() < 0.6 else ROT_NONE
@@ -226,7 +230,7 @@ def run(chk):
         chk.broken(f, {"theorem_gate": f})
     C.ensure_harness()
     specs = gen(chk)
-    built = [build_history(chk.rng, len(p[4]), p[1], p[2], p[3], p[4], *p[5:6]) for p in specs]
+    built = [build_history(chk.rng, len(p[4]), p[1], p[2], p[3], p[4], *p[5:7]) for p in specs]
     results = clientrun.run_scenarios(chk, [b[0] for b in built])
     for (kind, cs, shipped_old, rot, plan, *_), (s, info), (impl, model, mcase) in zip(specs, built, results):
         lower = any(any(plan[j][0][k] < plan[i][0][k] for k in range(4))
